@@ -3,7 +3,7 @@
    common shape — atoms, (overhang of ovh atoms)(atoms, one wildcard run, atoms)(overhang of
    ovh atoms), atoms — and its declared cutter's recognition site is placed so that both
    cuts fall exactly at the starts of groups 1 and 3. Exhaustive; re-proved on every run. *)
-From MV Require Import Base Regex RegexLemmas Shape ShapeLemmas Typing Pipeline.
+From MV Require Import Base Regex RegexLemmas Shape ShapeLemmas Typing TypingLemmas ShapeTyping Pipeline.
 From MV.Gen Require Import Kits Enzymes.
 From Coq Require Import String.
 
@@ -51,3 +51,17 @@ Proof.
   - destruct (parse3 (vector_structure e)) as [sh|] eqn:E; [|discriminate]. exists sh. split; [now apply parse3_sound|exact Hv].
 Qed.
 Print Assumptions C04_generic_framed.
+
+(* hence, for every concrete kit class and every record it accepts (well-formed or not, at
+   every rotation): both reported overhangs start at cut positions of the class's cutter *)
+Theorem C04_kits_cuts : forall k s m, In k kits -> typing (kcls k) s true = Valid m ->
+  exists a1 b1 a3 b3, span m 1 = Some (a1, b1) /\ span m 3 = Some (a3, b3) /\
+    b1 - a1 = eovh (cenz (kcls k)) /\ b3 - a3 = eovh (cenz (kcls k)) /\
+    cut_at (cenz (kcls k)) s a1 /\ cut_at (cenz (kcls k)) s a3.
+Proof.
+  intros k s m Hk Ht. destruct (C04_kits_framed k Hk) as (sh & Hp & Hf).
+  destruct (frames_sound (kcls k) sh s m Hp Hf Ht) as (pc & rest & _ & _ & L1 & L3 & S1 & S3 & C1 & C3).
+  exists (p1 pc + mstart m), (p2 pc + mstart m), (q3 pc + mstart m), (q4 pc + mstart m).
+  repeat split; auto; cbv [q4 p2]; lia.
+Qed.
+Print Assumptions C04_kits_cuts.
